@@ -182,7 +182,8 @@ def run(ctx):
                             if (c.fn or '').startswith('chrono'):
                                 calls.add(c.fn)
                             for cn in prog.callee_bodies(c):
-                                if cn.startswith(ty + '::') and len(seen) < 12:
+                                # methods of the type, and free functions of its module (`fn timestamp_to_naive_utc(micros)`)
+                                if (cn.startswith(ty + '::') or cn.startswith(ty.rsplit('::', 1)[0] + '::')) and len(seen) < 16:
                                     todo.append(prog.bodies[cn].root)
                 sides[i['trait'].rsplit('::', 1)[-1]] = (mb, calls)
         if len(sides) == 2 and any(c for _, c in sides.values()):
